@@ -67,6 +67,7 @@ func importLocalFile(
 	importPath, sourceDir string,
 ) (rel.Expr, error) {
 	importPath = strings.Trim(importPath, " \t\n")
+	base := sourceDir
 	if fromRoot {
 		rootPath, err := findRootFromModule(ctx, sourceDir)
 		if err != nil {
@@ -78,6 +79,16 @@ func importLocalFile(
 		if !strings.HasPrefix(importPath, "/") {
 			importPath = rootPath + "/" + strings.ReplaceAll(importPath, "../", "")
 		}
+		base = rootPath
+	}
+
+	// The trimming and stripping above run after the caller's own checks, so make sure the
+	// final path still names something beneath the module root (or the script's directory):
+	// " /etc/x", " .." and "." (which would read "<dir>.arrai") must not get through.
+	if r, err := filepath.Rel(base, importPath); err != nil || r == "." || r == ".." ||
+		strings.HasPrefix(r, ".."+string(filepath.Separator)) {
+		err = fmt.Errorf("import path %q is not beneath %q", importPath, base)
+		return nil, &localImportError{err: err, scanner: scanner}
 	}
 
 	if err := bundleLocalFile(ctx, importPath); err != nil {
